@@ -565,6 +565,52 @@ def finalizer_scenarios(log):
             except Exception:
                 pass
             del h
+    note("handler-reassigns-during-notification")
+    # a change handler that assigns / deletes the SAME attribute while it is being notified, with uniquely
+    # referenced old and new values (C18/Owner.v: every reference used after a callback is owned)
+    class Uniq(object):
+        def __init__(self):
+            self.data = [1]
+
+    class RN(HasTraits):
+        a = Any()
+        depth = Int()
+
+        def _a_default(self):
+            return Uniq()
+
+    for action in ("assign", "delete", "assign-delete", "pop"):
+        for _ in range(5):
+            h = RN()
+
+            def handler(obj, name, old, new):
+                if obj.depth > 2:
+                    return
+                obj.depth += 1
+                try:
+                    if "assign" in action:
+                        setattr(obj, name, Uniq())
+                    if "delete" in action:
+                        delattr(obj, name)
+                    if action == "pop":
+                        obj.__dict__.pop(name, None)
+                    gc.collect()
+                    if old is not None and hasattr(old, "data"):
+                        old.data.append(1)
+                    if new is not None and hasattr(new, "data"):
+                        new.data.append(2)
+                finally:
+                    obj.depth -= 1
+            h.on_trait_change(handler, "a")
+            h.a                       # default materialised
+            h.a = Uniq()
+            h.a = Uniq()
+            try:
+                del h.a
+            except Exception:
+                pass
+            h.a
+            del h
     note("heap-check")
     junk = [FHolder(payload=i) for i in range(2000)]
     del junk
@@ -572,10 +618,165 @@ def finalizer_scenarios(log):
     note("done")
 
 
+def delegate_replaced_scenario(log):
+    """setattr_delegate (ctraits.c 2559-2660) keeps only a BORROWED reference to the delegate object (PyDict_GetItem,
+    or getattr followed at once by Py_DECREF) while it calls the target trait's setattr; a Python-level validator of
+    the target trait that re-assigns the delegating object's delegate attribute drops the last reference to the
+    delegate, and setattr_trait goes on using it."""
+    log.write("F delegate-replaced-during-delegated-set\n")
+    log.flush()
+    holder = []
+
+    class Evil(TraitType):
+        def validate(self, obj, name, value):
+            holder[0].leaf = DLeaf()       # obj (the delegate) loses its owner
+            gc.collect()
+            junk = [bytearray(64) for _ in range(500)]
+            del junk
+            return value
+
+    class DLeaf(HasTraits):
+        v = Evil()
+
+        def _v_changed(self, new):
+            pass
+
+    class DOwner(HasTraits):
+        leaf = Instance(DLeaf)
+        v = DelegatesTo("leaf")
+
+    for _ in range(50):
+        o = DOwner(leaf=DLeaf())
+        holder[:] = [o]
+        o.v = object()
+        del o
+    junk = [DOwner(leaf=DLeaf()) for _ in range(500)]
+    del junk
+    gc.collect()
+    log.write("F done\n")
+    log.flush()
+
+
+def trait_removed_scenario(log):
+    """has_traits_setattro (ctraits.c 649-666) takes the trait object out of the instance-trait dict as a BORROWED
+    reference and calls trait->setattr(trait, trait, obj, name, value); a Python-level validator that removes that
+    instance trait (obj.remove_trait(name)) frees the CTrait, and setattr_trait goes on reading traitd->flags,
+    traitd->post_setattr, traito->notifiers."""
+    log.write("F trait-removed-during-validation\n")
+    log.flush()
+
+    class Evil(TraitType):
+        def validate(self, obj, name, value):
+            obj.remove_trait(name)
+            gc.collect()
+            junk = [bytearray(200) for _ in range(1000)]
+            del junk
+            return value
+
+        def post_setattr(self, obj, name, value):
+            pass
+
+    class TH(HasTraits):
+        pass
+
+    for _ in range(100):
+        h = TH()
+        h.add_trait("z", Evil())
+        h.on_trait_change(lambda: None, "z")
+        try:
+            h.z = object()
+        except Exception:
+            pass
+        del h
+    junk = [TH() for _ in range(500)]
+    del junk
+    gc.collect()
+    log.write("F done\n")
+    log.flush()
+
+
+def trait_removed_default_scenario(log):
+    """has_traits_getattro (857-862) -> getattr_trait with the trait object BORROWED from the instance-trait dict: a
+    callable default that removes the instance trait frees the CTrait; getattr_trait goes on reading
+    trait->post_setattr / trait->notifiers."""
+    log.write("F trait-removed-during-default\n")
+    log.flush()
+
+    class D(TraitType):
+        def get_default_value(self):
+            return (8, self._mk)
+
+        def _mk(self, obj):
+            obj.remove_trait("z")
+            gc.collect()
+            junk = [bytearray(100) for _ in range(1000)]
+            del junk
+            return 7
+
+        def post_setattr(self, obj, name, value):
+            pass
+
+    class TH2(HasTraits):
+        pass
+
+    for _ in range(100):
+        h = TH2()
+        h.add_trait("z", D())
+        h.on_trait_change(lambda: None, "z")
+        try:
+            h.z
+        except Exception:
+            pass
+        del h
+    gc.collect()
+    log.write("F done\n")
+    log.flush()
+
+
+def trait_removed_tpc_scenario(log):
+    """trait_property_changed (1094-1135) reads tnotifiers = trait->notifiers, releases the trait, and — when the new
+    value is omitted — calls has_traits_getattro (the property getter: arbitrary code) BEFORE call_notifiers uses the
+    borrowed notifier list; a getter that removes the instance trait frees the list."""
+    log.write("F trait-removed-during-property-changed\n")
+    log.flush()
+
+    def getter(obj):
+        obj.remove_trait("p")
+        gc.collect()
+        junk = [bytearray(100) for _ in range(1000)]
+        del junk
+        return 5
+
+    class TH3(HasTraits):
+        pass
+
+    for _ in range(100):
+        h = TH3()
+        h.add_trait("p", Property(fget=getter))
+        h.on_trait_change(lambda: None, "p")
+        try:
+            h.trait_property_changed("p", 1)
+        except Exception:
+            pass
+        del h
+    gc.collect()
+    log.write("F done\n")
+    log.flush()
+
+
+ONLY = {"delegate-replaced": delegate_replaced_scenario, "trait-removed": trait_removed_scenario,
+        "trait-removed-default": trait_removed_default_scenario, "trait-removed-tpc": trait_removed_tpc_scenario}
+
+
 def main():
     payload = dlib.load()
     if payload.get("finalizers"):
         log = open(payload["log"], "a")
+        if payload.get("only") in ONLY:
+            ONLY[payload["only"]](log)
+            log.close()
+            dlib.dump(dict(ok=True))
+            return
         finalizer_scenarios(log)
         log.close()
         dlib.dump(dict(ok=True))
